@@ -108,7 +108,16 @@ func c06IsWord(t string) bool {
 	return ch == '_' || ch == '"' || ch >= '0' && ch <= '9' || ch >= 'a' && ch <= 'z' || ch >= 'A' && ch <= 'Z'
 }
 
-func c06OperandEnd(t string) bool { return c06IsWord(t) || t == ")" || t == "]" }
+// an operand the vector spells as one token of program text (MC_Parse.PrimSeq): a regex
+// literal, a string in single quotes, `$`, an object literal, a match expression
+func c06IsPrimary(t string) bool {
+	n := len(t)
+	return t == "$" || n > 2 && (t[0] == '/' && t[n-1] == '/' || t[0] == '\'' && t[n-1] == '\'' || t[n-1] == '}')
+}
+
+func c06OperandEnd(t string) bool {
+	return c06IsWord(t) || t == ")" || t == "]" || c06IsPrimary(t)
+}
 
 func c06IsPrefixAt(toks []string, i int) bool {
 	t := toks[i]
@@ -180,6 +189,8 @@ func c06Printed(v c06Val) string {
 		return strconv.Itoa(v.N)
 	case "s":
 		return v.S
+	case "z":
+		return "null"
 	}
 	return c06Literal(v)
 }
@@ -272,18 +283,19 @@ func (p *c06Plan) add(label string, j Job) {
 
 func checkC06(c *Ctx) {
 	c.Assume("++ and -- are not ranked by the statement and do not occur in the vectors")
-	c.Assume("operands are variables (assigned first) and, for the first assignment of each tree, literals; numbers are small positive integers, one string, booleans; regex, null, unset, match, object literals as operands are outside the enumeration")
+	c.Assume("operands are variables (assigned first) and, for the first assignment of each tree, literals; numbers are small positive integers, one string, booleans; one operand of each operator single, pair and selected triple (both of a single) is in turn every other primary form: a regex literal, a string in single quotes, null, `$`, an array literal, an object literal, a match expression (families prim*); unset variables and more than one such primary among three or more operands are outside the enumeration")
+	c.Assume("the reference evaluation knows null and a regex value by the tables of DESIGN.md 3 (how a regex prints is not fixed: such outcomes are outside the evaluated universe); `$` (in BEGIN), array and object literals and match expressions have no reference value: trees with them are compared on their tree and on text against fully parenthesised form on the implementation only")
 	c.Assume("layout is fixed: single spaces around binary operators, none after a prefix operator (layout independence is C13; `3-1` is mis-lexed: F15)")
 	c.Assume("whether `a + b += c` (compound assignment to a non-assignable target) is refused statically is not compared (C11); for `=` the refusal is compared because it is what `=` binding loosest means")
 	c.Assume("the reference evaluation (MC_Parse.Ev) chooses operands and is a verdict in one way only: a fully parenthesised text that prints, not the value of its own grouping, but exactly the value and variables the reference gives ANOTHER grouping of the same tokens (both inside the evaluated universe and different) was evaluated as that other grouping; a value matching neither is an operator question (C05), reported as model_value_disagree, not judged; runtime errors are never matched this way")
 	c.Assume("operator sequences longer than 3 are sampled (family deep, from the seed) or restricted to assignment chains (chain4)")
 	pool := c.Pool()
 
-	fams := []string{"bin1", "bin2", "bin3", "pre1", "pre2", "prepre", "presuf", "suf1", "sufsuf", "inner", "chain4", "deep", "neg"}
-	mod, ndeep := 3, 96
+	fams := []string{"bin1", "bin2", "bin3", "pre1", "pre2", "prepre", "presuf", "suf1", "sufsuf", "inner", "chain4", "deep", "prim1", "prim2", "prim3", "preprim", "neg"}
+	mod, ndeep, pmod := 3, 96, 192
 	if c.Thorough() {
 		fams = append(fams, "suf2")
-		mod, ndeep = 1, 4000
+		mod, ndeep, pmod = 1, 4000, 8
 	}
 
 	famCount := map[string]int{}
@@ -297,6 +309,8 @@ func checkC06(c *Ctx) {
 	devHits := map[string][]devHit{}
 	devCases := 0
 	sampled := map[string]map[string]any{}
+	treeOnlyFam := map[string]int{}
+	var treeOnlySamples []string
 
 	var problems []string // infrastructure problems seen in worker callbacks (reported after the stream is drained)
 	problem := func(format string, a ...any) {
@@ -474,6 +488,8 @@ func checkC06(c *Ctx) {
 		nDiscImpl += len(implDisc)
 		if cs.NAlt > 0 && cs.NDisc == 0 && len(implDisc) == 0 {
 			nTreeOnly++
+			treeOnlyFam[fam]++
+			treeOnlySamples = append(treeOnlySamples, fam+": "+c06Layout(cs.Text))
 		}
 		c.Case(fam+":"+cs.Exp, cs.NAlt > 0 && (cs.NDisc > 0 || len(implDisc) > 0))
 		if key := c06Layout(cs.Text); cs.NAlt > 0 && (sampled[fam] == nil || key < sampled[fam]["text_pattern"].(string)) {
@@ -551,7 +567,7 @@ func checkC06(c *Ctx) {
 
 	var tlcWall time.Duration
 	cfg := cfgText("INIT Init", "NEXT Next", "CONSTANTS",
-		"Fams = {"+c06Quote(fams)+"}", fmt.Sprintf("Seed = %d", c.Seed%1000), fmt.Sprintf("Mod = %d", mod), fmt.Sprintf("NDeep = %d", ndeep),
+		"Fams = {"+c06Quote(fams)+"}", fmt.Sprintf("Seed = %d", c.Seed%1000), fmt.Sprintf("Mod = %d", mod), fmt.Sprintf("NDeep = %d", ndeep), fmt.Sprintf("PMod = %d", pmod),
 		"INVARIANT Laws", "INVARIANT NegLaws", "INVARIANT Vec", "CHECK_DEADLOCK FALSE")
 	res := c.TLC(TLCOpt{Module: "MC_Parse", Cfg: cfg, Workers: 12, Heap: "6g", Timeout: 40 * time.Minute,
 		OnVec: func(raw []byte) {
@@ -592,15 +608,15 @@ func checkC06(c *Ctx) {
 		c.Known(name, fmt.Sprintf("binary operators of equal precedence group right to left: %s (%d of %d trees are explained by it and by nothing else)", hits[0].what, devCases, nCases))
 	}
 
-	for _, fam := range []string{"bin2", "bin3", "pre2", "presuf", "inner", "deep"} {
+	for _, fam := range []string{"bin2", "bin3", "pre2", "presuf", "inner", "deep", "prim2", "prim3"} {
 		if m := sampled[fam]; m != nil {
 			c.Sample(m)
 		}
 	}
 	c.Set("exhaustive", true)
-	c.Set("rule", "TLC enumerates token sequences (all 21 binary operators: singles, ordered pairs, ordered triples [quick: the third with (i+j+k+seed)%3=0]; a prefix operator at every operand of singles and pairs, two prefixes; each suffix kind at every operand of singles [thorough: pairs]; suffix pairs; prefix with suffix; precedence restarting inside [ ] ( ) and array literals; assignment chains of 4; sampled sequences of 4 operators) and for each every well-formed grouping (2, 5, 14 bracketings; prefix/suffix applied at every enclosing sub-expression). One case = one tree; non-trivial = the token sequence has another grouping and some operand assignment tells the two apart (by the reference evaluation or on the implementation); distinct by tree")
+	c.Set("rule", "TLC enumerates token sequences (all 21 binary operators: singles, ordered pairs, ordered triples [quick: the third with (i+j+k+seed)%3=0]; a prefix operator at every operand of singles and pairs, two prefixes; each suffix kind at every operand of singles [thorough: pairs]; suffix pairs; prefix with suffix; precedence restarting inside [ ] ( ) and array literals; assignment chains of 4; sampled sequences of 4 operators; every other primary form [regex literal, single-quoted string, null, $, array literal, object literal, match expression] as the operand at every place of every single [and at both places] and every ordered pair, under a prefix operator next to every operator, and at the places of the ordered triples with (i+j+k+place+primary+seed)%PMod=0) and for each every well-formed grouping (2, 5, 14 bracketings; prefix/suffix applied at every enclosing sub-expression). One case = one tree; non-trivial = the token sequence has another grouping and some operand assignment tells the two apart (by the reference evaluation or on the implementation); distinct by tree")
 	c.Set("checker_cmd", "tlc MC_Parse (laws: Parse(Render(t)) = t, Parse(FullParen(t)) = t, no redundant parenthesis, same tokens, injectivity, deviation characterisation); replay through lang.VerifExprSexpr and lang.EvalProgram")
-	c.Set("bounds", map[string]any{"families": fams, "triple_selection_mod": mod, "deep_samples": ndeep, "operand_pool": "12 6 2 3 \"s\" true false 5", "type_names": "number string bool"})
+	c.Set("bounds", map[string]any{"families": fams, "triple_selection_mod": mod, "deep_samples": ndeep, "primary_triple_selection_mod": pmod, "primary_forms": "/s/ 's' null $ [4, 9] {k: 7} match (2) { 2 => 5 }", "operand_pool": "12 6 2 3 \"s\" true false 5", "type_names": "number string bool"})
 	c.Set("families", famCount)
 	c.Set("trees", nCases)
 	c.Set("ungrammatical_texts_refused", nNeg)
@@ -618,6 +634,18 @@ func checkC06(c *Ctx) {
 	c.Set("alternatives_told_apart_by_model_operands", nDiscModel)
 	c.Set("alternatives_told_apart_on_impl", nDiscImpl)
 	c.Set("trees_with_alternatives_but_never_told_apart", nTreeOnly)
+	sort.Strings(treeOnlySamples)
+	if os.Getenv("VERIF_C06_TREEONLY") == "" && len(treeOnlySamples) > 12 {
+		// a spread over the sorted list
+		step := len(treeOnlySamples) / 12
+		spread := []string{}
+		for i := 0; i < len(treeOnlySamples) && len(spread) < 12; i += step {
+			spread = append(spread, treeOnlySamples[i])
+		}
+		treeOnlySamples = spread
+	}
+	c.Set("trees_never_told_apart_by_family", treeOnlyFam)
+	c.Set("trees_never_told_apart_samples", treeOnlySamples)
 	c.Set("other_grouping_values_ruled_out", nRegroupChecks)
 	c.Set("evaluated_as_other_grouping", nRegrouped)
 	c.Set("model_value_agree", modelAgree)
